@@ -64,7 +64,8 @@ def line_texts(lines, names=None):
         elif k == "t":
             out.append(f"T{n + 1}")
         elif k == "i":
-            out.append(f"  T{n + 1}")
+            # (inside a --- block every other indented line is a row of dashes: text, not the closing delimiter)
+            out.append("  -----" if in_yaml and n % 2 == 0 else f"  T{n + 1}")
         else:
             key = names[ln[1]]
             val = vals.get((ln[1], ln[2]), ln[2])
@@ -73,16 +74,25 @@ def line_texts(lines, names=None):
     return out
 
 
-def make_class(decl):
+def make_class(decl, dynamic=False):
+    """dynamic: the option_spec resolves its keys in __getitem__ (as Sphinx autodoc's DummyOptionSpec does) and holds
+    no items of its own; `spec[name]` / KeyError is the interface docutils defines"""
     from docutils.parsers.rst import Directive, directives
+    table = {"a": directives.nonnegative_int, "b": directives.unchanged, "f": directives.flag}
+
+    class DynSpec(dict):
+        def __bool__(self):
+            return True
+
+        def __getitem__(self, key):
+            return table[key]
 
     class D(Directive):
         required_arguments = decl["req"]
         optional_arguments = decl["opt"]
         final_argument_whitespace = decl["faw"]
         has_content = decl["content"]
-        option_spec = ({"a": directives.nonnegative_int, "b": directives.unchanged, "f": directives.flag}
-                       if decl["spec"] else {})
+        option_spec = ((DynSpec() if dynamic else dict(table)) if decl["spec"] else {})
     return D
 
 
@@ -128,7 +138,8 @@ def observe(cls, first_text, texts, addl, trail=True, roles=None):
 
 def _replay_one(rec):
     decl = rec["decl"]
-    cls = make_class(decl)
+    # every third behaviour with an option_spec that resolves its keys dynamically
+    cls = make_class(decl, dynamic=(len(rec["lines"]) + rec["first"] + len(rec["addl"])) % 3 == 0)
     texts = line_texts(rec["lines"])
     obs, content = observe(cls, FIRST_TEXT[rec["first"]], texts, rec["addl"])
     return obs, content
@@ -137,7 +148,15 @@ def _replay_one(rec):
 def _compare(exp, obs):
     """-> list of differing fields (exp = M's result record, obs = projected observation)"""
     if exp["st"] == "outside":
-        return []
+        # option values outside the model (e.g. a value continued on an indented line): the split into block and body is still decided
+        if obs["st"] != "ok" or exp.get("argerr") or "body" not in exp:
+            return []
+        bad = []
+        if list(exp["body"]) != obs["body"]:
+            bad.append(f"body lines (1-based content line indices): expected {list(exp['body'])}, observed {obs['body']}")
+        if exp["off"] != obs["off"]:
+            bad.append(f"body_offset: expected {exp['off']}, observed {obs['off']}")
+        return bad
     if exp["st"] != obs["st"]:
         return [f"status: expected {exp['st']}, observed {obs['st']}"]
     if exp["st"] == "markup":
@@ -298,7 +317,6 @@ def run(ctx):
         exp = rec["res"]
         if exp["st"] == "outside":
             nout += 1
-            continue
         ctx.traces_validated += 1
         key = (tuple(map(tuple, rec["lines"])), tuple(sorted(rec["decl"].items())), rec["first"], repr(rec["addl"]))
         ctx.count(key, nontrivial=bool(rec["lines"]) and rec["lines"][0][0] in ("o", "d") and rec["decl"]["spec"])
